@@ -112,6 +112,12 @@ where
         S: DataMut,
     {
         let n = self.len();
+        assert!(
+            i < n,
+            "index {} is out of bounds for array of length {}",
+            i,
+            n
+        );
         if n == 1 {
             self[0].clone()
         } else {
@@ -141,6 +147,15 @@ where
         let mut deduped_indexes: Vec<usize> = indexes.to_vec();
         deduped_indexes.sort_unstable();
         deduped_indexes.dedup();
+        if let Some(&max_index) = deduped_indexes.last() {
+            let n = self.len();
+            assert!(
+                max_index < n,
+                "index {} is out of bounds for array of length {}",
+                max_index,
+                n
+            );
+        }
 
         get_many_from_sorted_mut_unchecked(self, &deduped_indexes)
     }
